@@ -14,5 +14,5 @@ run_one() {
   echo "$n check=$id exit=$rc $sig $ex"
 }
 export -f run_one
-ls seeded | grep -E '^C[0-9]{2}' | xargs -P $P -I{} bash -c 'run_one {}' | sort > seeded/RESULTS.txt
+ls seeded | grep -E '^C[0-9]{2}' | grep -E "${ONLY:-.}" | xargs -P $P -I{} bash -c 'run_one {}' | sort > seeded/RESULTS.txt
 cat seeded/RESULTS.txt
